@@ -104,6 +104,10 @@ func runHistory(n, pending int, ops []infOp, res *lp.Result, prop string) []stri
 					viol(i, fmt.Sprintf("send accepted although %d requests are unanswered (limit %d)", len(registered), n))
 				}
 			}
+			if prev, dup := registered[id]; dup && prop == "C10" {
+				// the pages still to come for the earlier request will now reach this one
+				viol(i, fmt.Sprintf("a request is accepted under stream id %d while request %d, sent with that id, still awaits its final response: its remaining pages will be delivered to the wrong request", id, prev))
+			}
 			registered[id] = hd
 		case "deliver":
 			f := responseFrame(o.id, o.last, o.tag)
